@@ -178,6 +178,11 @@ def configs(ctx):
                     out.append(dict(method=m, span=list(sp), dt0=dt0, dtype=dn, tol=tol, observe=True))
                     if m in ("RK4Solver", "RK45CKSolver", "ABAs5o6HSolver", "BackwardEuler"):
                         out.append(dict(method=m, span=list(sp), dt0=dt0, dtype=dn, tol=tol, observe=True, against=True))
+        # beside the convenient values: a step that is not a dyadic fraction, spans far from the origin of the time axis
+        if m in ("RK4Solver", "RK45CKSolver", "ABAs5o6HSolver", "BackwardEuler", "RICH:RK4Solver:3"):
+            for sp in ((1000.0, 1002.0), (-1000.0, -1002.0), (0.0, 2.0), (1.0, -1.0)):
+                for dn in (("float64",) if (ctx.quick or m.startswith("RICH")) else ("float64", "float32")):
+                    out.append(dict(method=m, span=list(sp), dt0=0.1, dtype=dn, tol=1e-6 if dn != "float32" else 1e-4, observe=True))
     return out
 
 
